@@ -54,7 +54,8 @@ def build():
 def harness(scenario, **kw):
     """Run one harness scenario; returns its SUMMARY object."""
     args = [BIN, scenario] + [f"{k}={v}" for k, v in kw.items()]
-    rc, out = sh(args, timeout=kw.pop("_timeout", 3600), cwd=HARNESS)
+    rc, out = sh(args, timeout=kw.pop("_timeout", 3600), cwd=HARNESS,
+                 env={"RUST_BACKTRACE": "0", "RUST_LIB_BACKTRACE": "0"})
     summ = None
     for line in out.splitlines():
         if line.startswith("SUMMARY "):
@@ -342,3 +343,27 @@ def write_json(path, obj):
     with open(path, "w") as f:
         json.dump(obj, f)
     return path
+
+
+def spec_mutant(chk, name, module, cfg, edits, workers=8, timeout=900):
+    """Vacuity guard: apply textual edits to a copy of the specification (a *spec mutant* that
+    breaks the mechanism an invariant guards) and require TLC to refute it."""
+    d = os.path.join(WORK, "mut_" + name)
+    shutil.rmtree(d, ignore_errors=True)
+    shutil.copytree(SPEC, d)
+    for fname, old, new in edits:
+        path = os.path.join(d, fname)
+        text = open(path).read()
+        if old not in text:
+            raise ToolError(f"spec mutant {name}: pattern not found in {fname}")
+        open(path, "w").write(text.replace(old, new))
+    meta = os.path.join(d, "meta")
+    cmd = ["tlc", "-workers", str(workers), "-metadir", meta, "-cleanup", "-noGenerateSpecTE",
+           "-config", os.path.join(d, cfg), os.path.join(d, module)]
+    rc, out = sh(cmd, timeout=timeout, cwd=d)
+    refuted = bool(re.search(r"is violated|properties were violated", out))
+    shutil.rmtree(d, ignore_errors=True)
+    chk.parts.setdefault("spec_mutants", []).append({"mutant": name, "cfg": cfg, "refuted": refuted})
+    if not refuted:
+        chk.tool_errors.append(f"spec mutant {name} was NOT refuted by TLC ({cfg}): the invariant it targets is vacuous")
+    return refuted
